@@ -217,6 +217,12 @@ func (self BinaryConv) handleError(ctx context.Context, fsm *types.J2TStateMachi
 		}
 	case types.ERR_OOM_BM:
 		{
+			// p is the number of missing bytes. The cache gets one bitmap per nested struct: growing it by
+			// the missing bytes only reallocates and copies it again for every further level of nesting,
+			// so (at least) double it
+			if c := cap(fsm.ReqsCache) / 2; p < c {
+				p = c
+			}
 			fsm.GrowReqCache(p)
 			return true, nil
 		}
